@@ -48,4 +48,8 @@ def matrix_jobs(prop, fam, tier, **kw):
     elif fam == 'm2':
         for row in S.matrix2_rows(tier):
             out += mk(prop, S.matrix2_id(*row), S.matrix2(*row), max_paths=4000, **kw)
+    elif fam == 'm3':
+        for i in S.matrix3_rows(tier):
+            sym = ('d1',) if tier == 'quick' else ('d1', 'd2', 't1')
+            out += mk(prop, f'm3/{i}', S.seq_program(i, sym), max_paths=3000, **kw)
     return out
